@@ -78,6 +78,7 @@ type Options struct {
 	LongListHeaders  bool // always use the long form list/set header
 	PadVarints       bool // write non-minimal ULEB128 varints (one extra byte)
 	BoolElemType1    bool // list/set/map element type BOOL written as 1 instead of 2
+	BoolElemFalse2   bool // compact: a false container element written as 2 (as the reference implementations do) instead of 0
 }
 
 func zigzag(v int64) uint64 { return uint64(v<<1) ^ uint64(v>>63) }
@@ -162,6 +163,9 @@ func encCompact(b []byte, v Val, o Options) []byte {
 	case Bool: // as a container element: one byte
 		if v.B {
 			return append(b, 1)
+		}
+		if o.BoolElemFalse2 {
+			return append(b, 2)
 		}
 		return append(b, 0)
 	case I8:
